@@ -68,6 +68,7 @@ def run_one(ctx, A, C, p, kind, eps, suc, tol, so, bits_vec, replay_base):
         with core.quiet(), P.forced_seed(bits_vec) as calls:
             ph = A.QuantumSignalProcessingPhases(list(p), eps=eps, suc=suc, signal_operator=so, tolerance=tol)
         out = ("ok", [float(x) for x in ph])
+        core.poison(ph)          # the caller owns the returned list; the library must not have kept it
     except C.CompletionError as e:
         out = ("CompletionError", str(e)[:60])
     except A.AngleFindingError as e:
